@@ -1,4 +1,5 @@
 import QuinnModel.Lemmas.Udp
+import QuinnModel.Lemmas.UdpSend
 /-
 C19 — The UDP layer preserves boundaries, payload and metadata.   (property theorems only; PARTIAL)
 Proved: the arithmetic the Rust code is responsible for.  Assumed (validated on loopback sockets by the
@@ -29,6 +30,61 @@ theorem effective_segment_size_spec (seg : Option Nat) (len : Nat) :
     effectiveSegmentSize seg len = none ↔ (seg = none ∨ ∃ s, seg = some s ∧ len ≤ s) :=
   effective_none_iff seg len
 
+/-- the segmentation decision at full strength: offload with segment size `s` is requested exactly when
+    the transmit gives `s` and `s < len` (i.e. whenever there is more than one datagram, including one
+    full segment plus a short last one) -/
+theorem effective_segment_size_some_iff (seg : Option Nat) (len s : Nat) :
+    effectiveSegmentSize seg len = some s ↔ (seg = some s ∧ s < len) :=
+  effective_some_iff seg len s
+
+/-- for EVERY (len, segment size): under the kernel contract what `effective_segment_size` makes the
+    kernel put on the wire is exactly the datagrams the transmit describes (`contents.chunks(s)`: full
+    segments and a possibly shorter last one — never merged), their concatenation is the contents, and
+    the receiver-side stride split of the (coalesced) received buffer is the inverse: it returns those
+    datagrams again -/
+theorem segmentation_decision_roundtrip {α : Type} (s : Nat) (hs : 0 < s) (contents : List α) (hc : contents ≠ []) :
+    wireDatagrams contents (effectiveSegmentSize (some s) contents.length)
+        = splitByStride s contents.length contents
+    ∧ (wireDatagrams contents (effectiveSegmentSize (some s) contents.length)).flatten = contents
+    ∧ splitByStride (recvStride (effectiveSegmentSize (some s) contents.length) contents.length)
+        contents.length contents
+        = wireDatagrams contents (effectiveSegmentSize (some s) contents.length) :=
+  segmentation_roundtrip s hs contents hc
+
+/-- Linux send path, any kernel behaviour: when `send` returns Ok every datagram the transmit describes
+    was accepted by the kernel, in order, with its own boundaries (never silently dropped: the
+    alternative is an error return, which `try_send` reports and `UdpSocketState::send` logs) -/
+theorem send_ok_delivers_all (k : Kernel) (t : Tx) (hv : t.valid) (fuel : Nat) (st : SockSt) (calls : Nat)
+    (h : (send k t fuel st calls).ret = none) : (send k t fuel st calls).wire = described t :=
+  send_ok k t hv fuel st calls h
+
+/-- "when an offload is unsupported the layer degrades to plain sends without losing, merging or
+    truncating datagrams": on a kernel path that answers EIO|EINVAL to every UDP_SEGMENT message a batch is
+    re-sent datagram by datagram — `send` returns Ok, exactly the described datagrams are on the wire,
+    each still carries the ECN codepoint, `sendmsg_einval` is not entered, offload is halted -/
+theorem gso_refused_degrades_to_plain_sends (k : Kernel) (hk : refusesGso k) (t : Tx) (hv : t.valid)
+    (fuel : Nat) (st : SockSt) (calls : Nat) :
+    (send k t (fuel + 2) st calls).ret = none
+    ∧ (send k t (fuel + 2) st calls).wire = described t
+    ∧ (send k t (fuel + 2) st calls).st.einval = st.einval
+    ∧ (st.einval = false → (send k t (fuel + 2) st calls).ecnOk = true)
+    ∧ ((effectiveSegmentSize t.seg t.len).isSome = true → (send k t (fuel + 2) st calls).st.maxGso ≤ 1) :=
+  send_refusesGso k hk t hv fuel st calls
+
+/-- the GSO fallback never disables ECN for later sends: unless the kernel answers EIO|EINVAL to a message
+    WITHOUT UDP_SEGMENT, no `send` call enters the `sendmsg_einval` mode (IP_TOS omitted on IPv4) -/
+theorem gso_fallback_keeps_ecn (k : Kernel) (hk : ∀ m n, m.segs = none → k m n ≠ .refused) (t : Tx)
+    (fuel : Nat) (st : SockSt) (calls : Nat) : (send k t fuel st calls).st.einval = st.einval :=
+  send_einval k hk t fuel st calls
+
+/-- the degradation clause as a statement about a send function; it holds for the repaired code ... -/
+theorem send_degrades_statement : degrades_statement send := send_degrades
+
+/-- ... and was FALSE for the code before the repair (audit SD-11): the refused batch `oldSendWitness`
+    (3 x 100 bytes, IPv4) was retried with UDP_SEGMENT still attached, dropped, and left the socket in the
+    `sendmsg_einval` mode -/
+theorem old_send_counterexample : ¬ degrades_statement sendOld := sendOld_not_degrades
+
 /-- for every combination of options the control messages `prepare_msg` encodes fit the control buffer, so
     `Encoder::push` never hits its assertion (finite table, all combinations) -/
 theorem cmsg_fits : ∀ o ∈ allOpts, controlLen o ≤ Gen.cmsgLen :=
@@ -48,6 +104,12 @@ theorem allRecvOpts_complete (o : RecvOpts) : o ∈ allRecvOpts := allRecvOpts_m
 example : splitByStride 3 8 [1,2,3,4,5,6,7,8] = [[1,2,3],[4,5,6],[7,8]] := by decide
 example : WF 3 [[1,2,3],[4,5,6],[7,8]] := by simp [WF]
 example : controlLen ⟨false, false, true, some false⟩ = 88 := by decide
+example : effectiveSegmentSize (some 1200) 1201 = some 1200 ∧ effectiveSegmentSize (some 1200) 1200 = none := by decide
+example : wireDatagrams [1,2,3,4,5] (effectiveSegmentSize (some 3) 5) = [[1,2,3],[4,5]] := by decide
+example : (send gsoRefusingKernel ⟨true, some 100, 250⟩ 8 ⟨64, false⟩ 0) = ⟨⟨1, false⟩, 4, [100, 100, 50], true, none⟩ := by decide
+example : refusesGso gsoRefusingKernel ∧ Tx.valid ⟨true, some 100, 250⟩ :=
+  ⟨gsoRefusingKernel_refusesGso, by decide, by intro s hs; cases hs; decide⟩
+example : sendOld gsoRefusingKernel oldSendWitness 8 ⟨64, false⟩ 0 = ⟨⟨1, true⟩, 2, [], true, some .refused⟩ := oldSendWitness_run
 example : recvControlLen ⟨false, true, true⟩ = 120 ∧ recvControlLen ⟨true, true, true⟩ = 112 := by decide
 
 end QM.Props.C19
